@@ -32,10 +32,10 @@ SIM_PROFILES = ["C01", "C02", "C03", "C04", "C05", "C06", "C08", "C09", "C10", "
 # runs per tier (each run = one generated history; enumeration profiles execute many
 # fault plans / layouts per run)
 RUNS = {
-    "quick": {"C01": 160000, "C02": 160000, "C03": 160000, "C04": 160000, "C05": 160000, "C06": 160000, "C08": 160000,
-              "C09": 24000, "C10": 5000, "C11": 24000, "C12": 160000, "C13": 160000, "C14": 160000},
-    "thorough": {"C01": 6000000, "C02": 6000000, "C03": 6000000, "C04": 5000000, "C05": 5000000, "C06": 5000000, "C08": 5000000,
-                 "C09": 300000, "C10": 60000, "C11": 600000, "C12": 5000000, "C13": 5000000, "C14": 5000000},
+    "quick": {"C01": 1000000, "C02": 1000000, "C03": 1000000, "C04": 800000, "C05": 800000, "C06": 800000, "C08": 800000,
+              "C09": 50000, "C10": 40000, "C11": 200000, "C12": 800000, "C13": 800000, "C14": 800000},
+    "thorough": {"C01": 30000000, "C02": 30000000, "C03": 30000000, "C04": 20000000, "C05": 20000000, "C06": 20000000, "C08": 20000000,
+                 "C09": 400000, "C10": 300000, "C11": 3000000, "C12": 20000000, "C13": 20000000, "C14": 20000000},
 }
 
 LEVEL = {"C10": "fault_enumeration", "C11": "fault_enumeration", "C16": "fault_enumeration"}
@@ -318,7 +318,21 @@ def do_replay_file(path, quiet=False):
 
 
 def finding_matches(fd, prop, v):
-    return fd["property"] == prop and fd["kind"] == v["kind"] and fd["cause"] == v["cause"]
+    return fd["property"] == prop and v.get("kind") in fd["kinds"] and fd["cause"] == v.get("cause")
+
+
+def regress_corpus(prop):
+    """Replay files of repaired defects (and seeded examples that must pass): each
+    is re-executed by the check of its property on every run."""
+    d = os.path.join(VERIF, "findings", "regress")
+    out = []
+    if os.path.isdir(d):
+        for n in sorted(os.listdir(d)):
+            if n.endswith(".json"):
+                with open(os.path.join(d, n)) as f:
+                    if json.load(f).get("property") == prop:
+                        out.append(os.path.join(d, n))
+    return out
 
 
 def write_evidence(prop, tier, seed, level, coverage, wall, nviol, extra_assume=None):
@@ -353,16 +367,29 @@ def check_sim(prop, tier, seed, jobs):
     for fd in known["findings"]:
         if fd["property"] != prop:
             continue
-        rp = os.path.join(VERIF, fd["replay"])
+        still = 0
+        for rel in fd["replays"]:
+            rp = os.path.join(VERIF, rel)
+            code, j = do_replay_file(rp, quiet=True)
+            if code == 2:
+                sys.exit(2)
+            if code == 1 and finding_matches(fd, prop, j):
+                still += 1
+            elif code == 1:
+                rec = json.load(open(rp))
+                unlisted.append(dict(j, profile=rec["profile"], seed=0, run=0, ops=";".join(rec["calls"]), faults=rec.get("faults", ""), layouts=rec["layouts"]))
+        if still or hit.get(fd["id"]):
+            print(f"KNOWN-FINDING: property={prop} {fd['what']} [{fd['id']}: {still}/{len(fd['replays'])} canonical replays still fail; {hit.get(fd['id'], 0)} generated histories hit it in this run]")
+    # regression corpus: repaired defects must stay repaired
+    regress_n = 0
+    for rp in regress_corpus(prop):
+        regress_n += 1
         code, j = do_replay_file(rp, quiet=True)
         if code == 2:
             sys.exit(2)
-        if code == 1 and finding_matches(fd, prop, j):
-            print(f"KNOWN-FINDING: property={prop} {fd['what']} (canonical replay {fd['replay']} still fails; {hit.get(fd['id'], 0)} further occurrences in this run)")
-        elif code == 1:
-            unlisted.append(dict(j, profile=prop, seed=0, run=0, ops=";".join(json.load(open(rp))["calls"]), faults=json.load(open(rp)).get("faults", ""), layouts=json.load(open(rp))["layouts"]))
-        elif hit.get(fd["id"]):
-            print(f"KNOWN-FINDING: property={prop} {fd['what']} ({hit[fd['id']]} occurrences in this run; canonical replay passes)")
+        if code == 1:
+            rec = json.load(open(rp))
+            unlisted.insert(0, dict(j, profile=rec["profile"], seed=0, run=0, ops=";".join(rec["calls"]), faults=rec.get("faults", ""), layouts=rec["layouts"]))
     wall = time.time() - t0
     execs = stats.get("execs", 0)
     other_kinds = {}
@@ -390,13 +417,14 @@ def check_sim(prop, tier, seed, jobs):
         "distinct_teardown_interleavings": norders,
         "interleaving_measure": "distinct (call sequence, member destruction order) pairs over executions with a group teardown",
         "known_findings_hit": hit,
+        "regression_replays_executed": regress_n,
         "other_property_violations": other_kinds,
         "components": {"real": ["cactusref (all modules, built from /repo working tree with --cfg cactusref_verif)", "hashbrown", "rustc-hash"],
                        "stub": ["payload value type (instrumented Node)", "global allocator (layout-scheduling arena)", "log backend (none installed)"]},
         "exhaustive": False,
     }
     if unlisted:
-        unlisted.sort(key=lambda v: len(v.get("ops", "")))
+        unlisted.sort(key=lambda v: (v.get("seed", 1) != 0, len(v.get("ops", ""))))
         v = unlisted[0]
         mini = minimise(prop, v)
         path = write_replay(prop, v, mini)
